@@ -4,7 +4,9 @@
    filesystem model relating inodes to paths, which this development does not have — it is covered by the
    correspondence harness only (recursive families: prefix-sharing siblings, one level at a time, inner renames). *)
 From stdpp Require Import gmap strings list.
-From Fsn Require Import PathLex Bytes Tables Doc Watcher System Recurse.
+From Fsn Require Import PathLex Bytes Tables Doc Watcher System Recurse CfgLang Cfg CfgExtra.
+From FsnGen Require Import GenCfg.
+From FsnObl Require Import OblCfg.
 From Fsn Require PathLexProofs.
 Local Open Scope N_scope.
 
@@ -77,6 +79,10 @@ Theorem C19_new_dir_covered cwd W2 K2 dirs x r pre pending ino :
     (∀ w, w ≠ next_wd K2 → w ≠ 0 → t_wd W' !! w = t_wd W2 !! w).
 Proof. exact (@rec_new_dir_registered cwd W2 K2 dirs x r pre pending ino). Qed.
 
+(* … and in the current source the reader performs that registration before it sends the event, never after *)
+Theorem C19_registered_before_create_is_sent : register_before_send gen_program = true.
+Proof. exact gen_register_before_send. Qed.
+
 Example C19_example_remove :
   let W := mkW (list_to_map [(1, mkWatch 1 4038 "t" true); (2, mkWatch 2 4038 "t/dir1" true); (3, mkWatch 3 4038 "t/dir10" true);
                              (4, mkWatch 4 4038 "t/dir1/sub" true); (5, mkWatch 5 4038 "t2" true)])
@@ -93,3 +99,4 @@ Print Assumptions C19_rename_spares_others.
 Print Assumptions C19_rename_spares_siblings.
 Print Assumptions C19_event_names.
 Print Assumptions C19_new_dir_covered.
+Print Assumptions C19_registered_before_create_is_sent.
